@@ -96,6 +96,9 @@ def gen_case(rng):
                 use_dict=use_dict,
                 subcls=subcls, insts=insts, vars=vs, writes=writes,
                 subarr=subarr, prelayout=rng.random() < 0.3,
+                # stack variables declared on two levels of a class
+                # hierarchy (program and sub-program classes)
+                inherit=rng.random() < 0.25,
                 initseed=rng.getrandbits(32))
 
 
@@ -122,7 +125,15 @@ def build(case):
     b = Built()
     m = ArrayMap()
     ns = {"license": "GPL", "m": m}
-    for n, f in case["mlocals"]:
+    inherit = case.get("inherit")
+    mbase = XDP
+    ml = case["mlocals"]
+    if inherit and len(ml) >= 2:
+        cut = random.Random(case["initseed"] + 1).randint(1, len(ml) - 1)
+        mbase = type("VfC04Base", (XDP,),
+                     {n: LocalVar(f) for n, f in ml[:cut]})
+        ml = ml[cut:]
+    for n, f in ml:
         ns[n] = LocalVar(f)
     for n, f in case["avars"]:
         ns[n] = m.globalVar(f)
@@ -152,9 +163,16 @@ def build(case):
     subclasses = []
     subarr = case.get("subarr") or [[] for _ in case["subcls"]]
     for j, dl in enumerate(case["subcls"]):
+        sbase = SubProgram
+        if inherit and len(dl) >= 2:
+            cut = random.Random(case["initseed"] + 2 + j).randint(
+                1, len(dl) - 1)
+            sbase = type(f"VfS{j}Base", (SubProgram,),
+                         {n: LocalVar(f) for n, f in dl[:cut]})
+            dl = dl[cut:]
         sns = {n: LocalVar(f) for n, f in dl}
         sns.update({n: m.globalVar(f) for n, f in subarr[j]})
-        subclasses.append(type(f"VfS{j}", (SubProgram,), sns))
+        subclasses.append(type(f"VfS{j}", (sbase,), sns))
     subs = [subclasses[k]() for k in case["insts"]]
     if case.get("prelayout") and subs:
         # the same sub-program objects were laid out before, in another
@@ -203,7 +221,8 @@ def build(case):
         where, kind, n, f = case["vars"][i]
         if kind == "local":
             o = owner(e, where)
-            return type(o).__dict__[n].fmt_addr(o)[1]
+            return [c.__dict__[n] for c in type(o).__mro__
+                    if n in c.__dict__][0].fmt_addr(o)[1]
         if kind == "dkey":
             return type(e.d.key).__dict__[n].fmt_addr(e.d.key)[1]
         if kind == "dval":
@@ -262,7 +281,7 @@ def build(case):
         e.r0 = 2
         e.exit()
     ns["program"] = program
-    e = type("VfC04", (XDP,), ns)(subprograms=subs)
+    e = type("VfC04", (mbase,), ns)(subprograms=subs)
     b.e, b.subs, b.expected = e, subs, expected
     return b
 
@@ -302,6 +321,8 @@ def check_case(case, res, use_v=True):
         try:
             res.count("status:ok")
             res.case(case, nontrivial=nv >= 3)
+            if case.get("inherit"):
+                res.count("cases_with_locals_on_two_class_levels")
             desc = dict(case)
             # oracle 0: declared stack ranges disjoint
             rl = sorted((lo, hi, i) for i, (lo, hi) in b.ranges.items())
